@@ -135,6 +135,9 @@ func (pe *provEnv) condFormula(e ast.Expr, depth int) *formula {
 			}
 		}
 	}
+	if ents, k, eq, ok := pe.comparisonPartition(e); ok {
+		return partitionFormula(ents, k, eq)
+	}
 	as := pe.condAtoms(e, false)
 	if len(as) == 1 {
 		nf := normAtom(as[0])
@@ -149,6 +152,7 @@ func (pe *provEnv) condFormula(e ast.Expr, depth int) *formula {
 type pathFact struct {
 	F   *formula
 	Val bool
+	E   ast.Expr // the source condition (nil for assumed facts)
 }
 
 type codePath struct {
@@ -195,7 +199,7 @@ func enumPathsX(g *cfg.CFG, formulaOf func(ast.Expr, int) *formula, caseTag map[
 			}
 			if assume != nil {
 				if cond := assume(nd); cond != nil {
-					facts = append(facts, pathFact{formulaOf(cond, 0), true})
+					facts = append(facts, pathFact{F: formulaOf(cond, 0), Val: true})
 				}
 			}
 		}
@@ -210,12 +214,14 @@ func enumPathsX(g *cfg.CFG, formulaOf func(ast.Expr, int) *formula, caseTag map[
 		if len(b.Succs) == 2 && len(b.Nodes) > 0 {
 			if cond, ok := b.Nodes[len(b.Nodes)-1].(ast.Expr); ok {
 				f := formulaOf(cond, 0)
+				src := cond
 				if tag, ok := caseTag[cond]; ok {
-					f = formulaOf(&ast.BinaryExpr{X: tag, Op: token.EQL, Y: cond}, 0)
+					src = &ast.BinaryExpr{X: tag, Op: token.EQL, Y: cond}
+					f = formulaOf(src, 0)
 				}
 				for i, s := range b.Succs {
 					markF := len(facts)
-					facts = append(facts, pathFact{f, i == 0})
+					facts = append(facts, pathFact{F: f, Val: i == 0, E: src})
 					walk(s)
 					facts = facts[:markF]
 				}
@@ -298,7 +304,6 @@ func splitCmpOp(atom string) (l, op, r string, ok bool) {
 	return
 }
 
-
 // ---- valuation with forking ----
 
 type needFork struct{ atom string }
@@ -356,7 +361,7 @@ func decompose(fs []pathFact) (atoms map[string]bool, residual []pathFact, contr
 				add(a, val)
 			}
 		default:
-			residual = append(residual, pathFact{f, val})
+			residual = append(residual, pathFact{F: f, Val: val})
 		}
 	}
 	for _, f := range fs {
@@ -508,7 +513,15 @@ func statusOutcome(pk *packages.Package, env *provEnv, self types.Object, p *cod
 			return st
 		}
 	}
-	// the last `Status: X` executed on the path
+	statusExpr := statusExprOnPath(p)
+	if statusExpr == nil {
+		return "response-without-status"
+	}
+	return "status:" + evalAlongPath(pk, env, statusExpr, p, 0)
+}
+
+// statusExprOnPath: the last `Status: X` of a literal or `….Status = X` assignment executed on the path.
+func statusExprOnPath(p *codePath) ast.Expr {
 	var statusExpr ast.Expr
 	for _, nd := range p.Nodes {
 		ast.Inspect(nd, func(n ast.Node) bool {
@@ -518,13 +531,48 @@ func statusOutcome(pk *packages.Package, env *provEnv, self types.Object, p *cod
 			if kv, ok := n.(*ast.KeyValueExpr); ok && exprString(kv.Key) == "Status" {
 				statusExpr = kv.Value
 			}
+			if as, ok := n.(*ast.AssignStmt); ok && len(as.Lhs) == len(as.Rhs) {
+				for i, l := range as.Lhs {
+					if se, ok := ast.Unparen(l).(*ast.SelectorExpr); ok && se.Sel.Name == "Status" {
+						statusExpr = as.Rhs[i]
+					}
+				}
+			}
 			return true
 		})
 	}
-	if statusExpr == nil {
-		return "response-without-status"
+	return statusExpr
+}
+
+// exprAlongPath follows identifiers to their last assignment on the path and returns the
+// expression that produced the value (nil when it cannot be followed).
+func exprAlongPath(pk *packages.Package, e ast.Expr, p *codePath, depth int) ast.Expr {
+	info := pk.TypesInfo
+	e = ast.Unparen(e)
+	id, ok := e.(*ast.Ident)
+	if !ok || depth > 4 {
+		return e
 	}
-	return "status:" + evalAlongPath(pk, env, statusExpr, p, 0)
+	obj := info.Uses[id]
+	if obj == nil {
+		return e
+	}
+	for i := len(p.Nodes) - 1; i >= 0; i-- {
+		if rhs, ok := assignsTo(info, p.Nodes[i], obj); ok {
+			if len(rhs) == 1 {
+				if as, isAs := p.Nodes[i].(*ast.AssignStmt); isAs && len(as.Lhs) == 2 {
+					// v, ok := table[key]: the value is the lookup
+					if isObj(info, as.Lhs[0], obj) {
+						return ast.Unparen(rhs[0])
+					}
+					return e
+				}
+				return exprAlongPath(pk, rhs[0], p, depth+1)
+			}
+			return e
+		}
+	}
+	return e
 }
 
 // evalAlongPath resolves an expression to a constant name / helper application using the last
@@ -635,10 +683,45 @@ func ruleTables(specs ...*tableSpec) ruleFn {
 				if ts.Relevant != nil && !ts.Relevant(got) {
 					continue
 				}
+				wants := evalSpec(ts.Spec, facts, residual)
+				if len(wants) == 1 && wants[got] {
+					checked++
+					seenOutcomes[got] = true
+					continue
+				}
+				// the status is produced by a pure decision helper or a read-only table: one outcome
+				// per entry of its partition, under the entry's conditions
+				if ts.Outcome == nil && strings.HasPrefix(got, "status:") {
+					if se := statusExprOnPath(p); se != nil {
+						deciding := exprAlongPath(pk, se, p, 0)
+						if ents, ok := env.partitionOf(deciding); ok {
+							ovs := env.fieldOverrides(p, deciding)
+							for _, en := range ents {
+								fs := append(append([]pathFact(nil), p.Facts...), renameFacts(applyOverrides(en.Facts, ovs), ts.Rename)...)
+								f2, r2, contra := decompose(fs)
+								if contra || !consistent(f2) || !satisfiable(f2, r2) {
+									continue
+								}
+								g2 := "status:" + en.Result
+								checked++
+								seenOutcomes[g2] = true
+								w2 := evalSpec(ts.Spec, f2, r2)
+								if len(w2) != 1 || !w2[g2] {
+									var ws []string
+									for w := range w2 {
+										ws = append(ws, w)
+									}
+									sort.Strings(ws)
+									mm = append(mm, mismatch{factString(fs), g2, strings.Join(ws, " | "), p.End})
+								}
+							}
+							continue
+						}
+					}
+				}
 				checked++
 				seenOutcomes[got] = true
-				wants := evalSpec(ts.Spec, facts, residual)
-				if len(wants) != 1 || !wants[got] {
+				{
 					var ws []string
 					for w := range wants {
 						ws = append(ws, w)
@@ -704,7 +787,6 @@ func returnOutcome(pk *packages.Package, env *provEnv, self types.Object, p *cod
 	return strings.Join(rs, ", ")
 }
 
-
 // caseTags maps each case expression of every tagged switch to the tag expression.
 func caseTags(body *ast.BlockStmt) map[ast.Expr]ast.Expr {
 	out := map[ast.Expr]ast.Expr{}
@@ -737,6 +819,37 @@ func assertCond(pk *packages.Package) func(ast.Node) ast.Expr {
 		}
 		return nil
 	}
+}
+
+// renameFacts applies a table's atom renaming to facts obtained elsewhere (helper partitions).
+func renameFacts(fs []pathFact, ren [][2]string) []pathFact {
+	if len(ren) == 0 {
+		return fs
+	}
+	var res []*regexp.Regexp
+	for _, r := range ren {
+		res = append(res, regexp.MustCompile(r[0]))
+	}
+	var apply func(x *formula) *formula
+	apply = func(x *formula) *formula {
+		if x.Op == "atom" {
+			a := x.Atom
+			for i, re := range res {
+				a = re.ReplaceAllString(a, ren[i][1])
+			}
+			return &formula{Op: "atom", Atom: a}
+		}
+		y := &formula{Op: x.Op}
+		for _, a := range x.Args {
+			y.Args = append(y.Args, apply(a))
+		}
+		return y
+	}
+	var out []pathFact
+	for _, f := range fs {
+		out = append(out, pathFact{F: apply(f.F), Val: f.Val, E: f.E})
+	}
+	return out
 }
 
 func renamed(f func(ast.Expr, int) *formula, ren [][2]string) func(ast.Expr, int) *formula {
